@@ -1,8 +1,9 @@
 /-
 Driver/C04.lean — line-protocol driver for the object-level model.
 in : {"case": n, "table": Table, "calls": [Call]}     (object 0 = DF.init table with identity display map)
-out: per call: indices of pre-existing DataFrame objects whose `observe` changed, indices of handles that
-     changed, and how many statements were sent; plus the final observation of every object.
+out: per call: indices of pre-existing DataFrame objects whose `observe` changed (rows / names / hint comments), indices whose
+     internal hint state changed (pending list, hint clause, what their join hints name), indices of handles that changed, how
+     many statements were sent; plus the final observation of every object and the violated scope hypotheses.
 -/
 import SqlframeModel.Codec.C04
 open Lean Sqlframe
@@ -16,6 +17,11 @@ structure Case where
 def changedObjs (a b : Heap) : List Nat :=
   (List.range a.objs.length).filter (fun i => (a.objs[i]?).map observe != (b.objs[i]?).map observe)
 
+def hintState (cells : List Nat) (o : Obj) : List Hint × List Hint × List Bool := (o.pending, o.attached, hintTargets cells o)
+
+def changedHints (a b : Heap) : List Nat :=
+  (List.range a.objs.length).filter (fun i => (a.objs[i]?).map (hintState a.cells) != (b.objs[i]?).map (hintState b.cells))
+
 def changedHandles (a b : Heap) : List Nat :=
   (List.range a.handles.length).filter (fun i => a.handles[i]? != b.handles[i]?)
 
@@ -23,7 +29,7 @@ def stepAll (h : Heap) : List Call → List Json → List Json × Heap
   | [], acc => (acc.reverse, h)
   | c :: cs, acc =>
     let h' := exec h c
-    let j := Json.mkObj [("objs", toJson (changedObjs h h')), ("handles", toJson (changedHandles h h')),
+    let j := Json.mkObj [("objs", toJson (changedObjs h h')), ("hints", toJson (changedHints h h')), ("handles", toJson (changedHandles h h')),
                          ("engine", toJson (h'.engineCalls - h.engineCalls)), ("nobjs", toJson h'.objs.length)]
     stepAll h' cs (j :: acc)
 
@@ -33,8 +39,11 @@ def handle (line : String) : String :=
   | .ok c =>
     let h0 : Heap := { objs := [{ df := DF.init c.table, display := c.table.cols.map (fun x => (x, x)) }], handles := [], engineCalls := 0 }
     let (js, hf) := stepAll h0 c.calls []
-    let finals := hf.objs.map (fun o => Json.mkObj [("table", (observe o).1.toPlain), ("names", toJson (observe o).2)])
-    Json.compress (Json.mkObj [("case", toJson c.case), ("steps", Json.arr js.toArray), ("final", Json.arr finals.toArray)])
+    let finals := hf.objs.map (fun o => Json.mkObj [("table", (observe o).1.toPlain), ("names", toJson (observe o).2.1), ("hints", toJson (hintView o)),
+                                                     ("pending", toJson (o.pending.map (·.text))), ("targets", toJson (hintTargets hf.cells o)),
+                                                     ("last", toJson (reprStr o.df.last))])
+    let viol : List String := if decide (H_hint_nodes_private c.calls) then [] else ["H_hint_nodes_private"]
+    Json.compress (Json.mkObj [("case", toJson c.case), ("steps", Json.arr js.toArray), ("final", Json.arr finals.toArray), ("violated", toJson viol)])
 
 partial def loop (h : IO.FS.Stream) (out : IO.FS.Stream) : IO Unit := do
   let line ← h.getLine
